@@ -303,7 +303,7 @@ def _plan_joins(projection, condition_fields, relations, db):
     while joinmap:
         changed = False
         for rel in list(joinmap):
-            if not joins or joined_keys.intersection(joinmap[rel]):
+            if not joins or joined_keys.intersection(keymap[rel]):
                 joins.append((rel, joinmap.pop(rel)))
                 joined_keys.update(keymap[rel])
                 changed = True
